@@ -426,6 +426,9 @@ Definition Spec_C41 (c : case) : Prop :=
     /\ rep_lit = weave (gaps t ms 0) (map (fun _ => repl) full)
     /\ rep_tpl = weave (gaps t ms 0) (map (fun m => expand tpl t (m_groups m)) full)
     /\ (forall r, parse_lit p = Some r -> ms = lit_matches (denote r) t)
+  | CSeq steps =>
+    Forall (fun st => fresh_ok (st_call st) (st_fresh st) = true
+                      /\ st_obs st = spec_call (st_call st) (st_fresh st)) steps
   | _ => True
   end.
 
@@ -449,6 +452,29 @@ Proof. apply list_eqb_spec. apply pos_eqb_spec. Qed.
 
 Lemma listZ_eqb_spec a b : listZ_eqb a b = true <-> a = b.
 Proof. apply list_eqb_spec. apply Z.eqb_eq. Qed.
+
+Lemma groups_eqb_spec a b : groups_eqb a b = true <-> a = b.
+Proof.
+  apply list_eqb_spec. intros [x1 x2] [y1 y2]. cbn [fst snd].
+  rewrite andb_true_iff, !Z.eqb_eq. split; [intros [-> ->]; reflexivity | intros [= -> ->]; split; reflexivity].
+Qed.
+
+Lemma rmatch_eqb_spec a b : rmatch_eqb a b = true <-> a = b.
+Proof.
+  destruct a as [s1 e1 t1 g1], b as [s2 e2 t2 g2]. unfold rmatch_eqb. cbn [m_s m_e m_text m_groups].
+  rewrite !andb_true_iff, !Nat.eqb_eq, bytes_eqb_spec, groups_eqb_spec. split.
+  - intros [[[-> ->] ->] ->]. reflexivity.
+  - intros [= -> -> -> ->]. repeat split.
+Qed.
+
+Lemma rresult_eqb_spec a b : rresult_eqb a b = true <-> a = b.
+Proof.
+  destruct a, b; cbn [rresult_eqb]; try (split; [discriminate | discriminate]); try (split; reflexivity).
+  - rewrite (list_eqb_spec rmatch_eqb rmatch_eqb_spec). split; [intros ->; reflexivity | intros [= ->]; reflexivity].
+  - rewrite list_bytes_eqb_spec. split; [intros ->; reflexivity | intros [= ->]; reflexivity].
+  - rewrite bytes_eqb_spec. split; [intros ->; reflexivity | intros [= ->]; reflexivity].
+  - split; [intros H; apply eqb_prop in H; subst; reflexivity | intros [= ->]; apply eqb_reflx].
+Qed.
 
 Lemma oracle_sound c : oracle c = true -> Spec_C41 c.
 Proof.
@@ -504,6 +530,10 @@ Proof.
     repeat (split; [assumption|]).
     intros r Hr. match goal with H : match parse_lit p with _ => _ end = true |- _ =>
       rewrite Hr in H; apply poss_eqb_spec in H; exact H end.
+  - (* sequence *)
+    intros O. apply Forall_forall. intros st Hst. rewrite forallb_forall in O.
+    specialize (O st Hst). unfold step_oracle in O. apply andb_true_iff in O as [O1 O2].
+    split; [exact O1 | apply rresult_eqb_spec; exact O2].
 Qed.
 
 (* ------------------------------------------------------------------ *)
@@ -569,4 +599,46 @@ Proof.
   replace (list_bytes_eqb _ _) with true by (symmetry; apply list_bytes_eqb_spec; reflexivity).
   rewrite !bytes_eqb_refl. cbn [andb].
   destruct (parse_lit p) as [r|]; [|reflexivity]. apply poss_eqb_spec. apply L. reflexivity.
+Qed.
+
+(* ------------------------------------------------------------------ *)
+(* sequences of re: calls: a call's answer depends on its own arguments only *)
+
+Lemma run_seq_app engine a b : run_seq engine (a ++ b) = run_seq engine a ++ run_seq engine b.
+Proof. apply map_app. Qed.
+
+Lemma run_seq_nth engine pre c post :
+  nth_error (run_seq engine (pre ++ c :: post)) (length pre)
+  = Some (run_call c (fresh_of engine c)).
+Proof.
+  unfold run_seq. rewrite map_app, nth_error_app2 by (rewrite map_length; lia).
+  rewrite map_length, Nat.sub_diag. reflexivity.
+Qed.
+
+(* whatever was called before and whatever is called after *)
+Lemma call_independent_of_history engine pre1 post1 pre2 post2 c :
+  nth_error (run_seq engine (pre1 ++ c :: post1)) (length pre1)
+  = nth_error (run_seq engine (pre2 ++ c :: post2)) (length pre2).
+Proof. rewrite !run_seq_nth. reflexivity. Qed.
+
+Lemma spec_call_is_run c fresh : fresh_ok c fresh = true -> spec_call c fresh = run_call c fresh.
+Proof.
+  destruct fresh as [ms|]; [|reflexivity]. cbn [fresh_ok]. intros H.
+  apply andb_true_iff in H as [W _]. unfold spec_call, run_call.
+  destruct (rc_op c); rewrite ?re_split_is_spec by exact W;
+    rewrite ?re_replace_lit_spec, ?re_replace_tpl_spec; reflexivity.
+Qed.
+
+Lemma rresult_eqb_refl r : rresult_eqb r r = true.
+Proof. apply rresult_eqb_spec. reflexivity. Qed.
+
+(* for every engine whose match lists satisfy the contract, the model's answers
+   to any sequence of calls pass the oracle *)
+Lemma model_seq_ok engine cs :
+  (forall c, In c cs -> fresh_ok c (fresh_of engine c) = true) ->
+  oracle (CSeq (map (fun c => mkStep c (fresh_of engine c) (run_call c (fresh_of engine c))) cs)) = true.
+Proof.
+  intros H. cbn [oracle]. apply forallb_forall. intros st Hin.
+  apply in_map_iff in Hin as (c & <- & Hc). unfold step_oracle. cbn [st_call st_fresh st_obs].
+  rewrite (H c Hc). rewrite spec_call_is_run by (apply H; exact Hc). apply rresult_eqb_refl.
 Qed.
